@@ -253,7 +253,9 @@ def run(F, R, tier):
     cyc = set()
     for comp in sccs:
         if len(comp) > 1 or comp[0] in g[comp[0]]:
-            members = tuple(sorted(set(short(keypath.get(nodes[x]["key"], nodes[x]["key"])) for x in comp)))
+            # closures are folded into the function they are written in: turning a loop into `iter().map(|x| ..)` does not change
+            # which functions recurse, and must not rename the cycle
+            members = tuple(sorted(set(re.sub(r"(::\{closure\})+$", "", short(keypath.get(nodes[x]["key"], nodes[x]["key"]))) for x in comp)))
             cyc.add(members)
     for members in sorted(cyc):
         key = "cycle:" + " <-> ".join(sorted(m.split("::", 1)[1] if "::" in m else m for m in members))
